@@ -14,22 +14,28 @@ from .source import GenSource, mix
 def _one(i):
     src = GenSource(mix(777, i), 'H', {})
     src.cfg['p_cancel'] = 0.0
+    src.cfg['trace_funcs'] = True
     r = runner.run_plan(src)
-    return [(x['name'], x['steps']) for x in r['records'] if x.get('outcome') == 'ok']
+    return [(x['name'], x['steps']) for x in r['records'] if x.get('outcome') == 'ok'], r['funcs_by_name']
 
 
 def main(argv):
     n = int(argv[0]) if argv else 1500
     runner.boot()
     per = {}
+    funcs = {}
     with ProcessPoolExecutor(16, mp_context=mp.get_context('fork'), initializer=runner.boot) as ex:
-        for lst in ex.map(_one, range(n), chunksize=8):
+        for lst, fb in ex.map(_one, range(n), chunksize=8):
             for name, s in lst:
                 per.setdefault(name, []).append(s)
+            for name, fs in fb.items():
+                funcs.setdefault(name, set()).update(fs)
     out = {k: int(statistics.median(v)) for k, v in sorted(per.items()) if v}
     p = os.path.join(os.path.dirname(__file__), 'steps.json')
     with open(p, 'w') as f:
         json.dump(out, f, indent=0, sort_keys=True)
+    with open(os.path.join(os.path.dirname(__file__), 'funcs.json'), 'w') as f:
+        json.dump(dict((k, sorted(v)) for k, v in sorted(funcs.items())), f, indent=0, sort_keys=True)
     from .catalogue import ENTRIES
     missing = sorted(set(ENTRIES) - set(out))
     print('calibrated %d entries (%d never completed: %s)' % (len(out), len(missing), missing[:20]))
